@@ -75,3 +75,65 @@ Theorem C01_walk_sorted : forall (M : Type) (excl : str -> bool) (t : tree M),
   WFtree t -> StronglySorted lt_ap (map path (walk_rec excl t)).
 Proof. exact (@walk_strictly_sorted). Qed.
 Print Assumptions C01_walk_sorted.
+
+(* ---- the composition: backup program -> archive -> restore program ---- *)
+From Coq Require Import List NArith.
+From CV Require Import Stitch Store StitchProg Backup Read Inv Conf Truth Valid E2E E2EP.
+Local Open Scope N_scope.
+
+(* From any archive state that satisfies the invariants the operations maintain ([Ready]:
+   header, no GC lock, d/, well-formed directories, referential integrity, format
+   conformance), for every sorted, valid source and every configuration, WITHOUT faults:
+   the backup succeeds with zero errors into the new band, and restoring that band returns,
+   IN ORDER, exactly one restored file per source file / directory / symlink, carrying the
+   source's path, kind, mtime, mode, owner and link target; a file's content is the bytes
+   read from the source, or -- when kind, mtime and size equal the previous version's entry
+   and the backup reused its addresses -- what that entry restored to before. *)
+Theorem C01_backup_then_restore_exact :
+  forall (pre : bytes -> N) (c : cfg) (src : list sitem) (a0 : Store.arch),
+    Ready pre a0 -> SrcSorted src -> SrcValid src -> SrcWF src -> cfg_ok c ->
+    exists tr a1 r,
+      run pre (backup_prog pre c src) a0 [] = (tr, a1, Store.Done r)
+      /\ b_ok r = true /\ b_errors r = 0 /\ b_band r = Some (new_band a0)
+      /\ exists tr' rr,
+           run pre (restore_prog (Specified (new_band a0)) keep_all) a1 [] = (tr', a1, Store.Done rr)
+           /\ r_ok rr = true /\ r_merr rr = 0
+           /\ Forall2 (item_restored c a0) (known_items src) (r_files rr).
+Proof. exact backup_then_restore_exact. Qed.
+Print Assumptions C01_backup_then_restore_exact.
+
+(* With no earlier entry of the same path, kind, mtime and size (in particular for the
+   first backup), every file restores to EXACTLY the bytes read from the source. *)
+Theorem C01_backup_then_restore_exact_no_reuse :
+  forall (pre : bytes -> N) (c : cfg) (src : list sitem) (a0 : Store.arch),
+    Ready pre a0 -> SrcSorted src -> SrcValid src -> SrcWF src -> cfg_ok c ->
+    (forall it be, In it src -> s_kind (si_e it) = KFile -> ~ basis_match a0 it be) ->
+    exists tr a1 r,
+      run pre (backup_prog pre c src) a0 [] = (tr, a1, Store.Done r)
+      /\ b_ok r = true /\ b_errors r = 0 /\ b_band r = Some (new_band a0)
+      /\ exists tr' rr,
+           run pre (restore_prog (Specified (new_band a0)) keep_all) a1 [] = (tr', a1, Store.Done rr)
+           /\ r_ok rr = true /\ r_merr rr = 0
+           /\ Forall2 (item_restored_exact c) (known_items src) (r_files rr).
+Proof. exact backup_then_restore_exact_fresh. Qed.
+Print Assumptions C01_backup_then_restore_exact_no_reuse.
+
+(* The unconditional strict form is false: an edit that keeps kind, mtime and size is not
+   seen (content_heuristically_unchanged), by design. *)
+Theorem C01_same_mtime_and_size_edit_refuted :
+  exists pre c src a0,
+    Ready pre a0 /\ SrcSorted src /\ SrcValid src /\ SrcWF src /\ cfg_ok c
+    /\ forall tr a1 r tr' rr,
+         run pre (backup_prog pre c src) a0 [] = (tr, a1, Store.Done r) ->
+         run pre (restore_prog (Specified (new_band a0)) keep_all) a1 [] = (tr', a1, Store.Done rr) ->
+         ~ Forall2 (item_restored_exact c) (known_items src) (r_files rr).
+Proof. exact backup_then_restore_strict_refuted. Qed.
+Print Assumptions C01_same_mtime_and_size_edit_refuted.
+
+(* The state reached satisfies [Ready] again, so backups chain. *)
+Theorem C01_backup_keeps_ready :
+  forall (pre : bytes -> N) (c : cfg) (src : list sitem) (a0 : Store.arch),
+    Ready pre a0 -> SrcSorted src -> SrcValid src -> SrcWF src ->
+    Ready pre (snd (fst (run pre (backup_prog pre c src) a0 []))).
+Proof. exact backup_keeps_ready. Qed.
+Print Assumptions C01_backup_keeps_ready.
